@@ -215,8 +215,10 @@ void strip_scratch(ReadOutcome& o) {
 }
 
 bool allowed_status(const std::string& s) {
+  // mp::OverflowError is the library's checked-arithmetic error for sizes computed from file-provided
+  // counts (property C17: "either the true size or an error"): a legitimate way to reject hostile counts
   return s == "ok" || s == "ReadError" || s == "BinaryReadError" || s == "Error" || s == "UnsupportedError" ||
-         s == "SystemError" || s == "bad_alloc";
+         s == "SystemError" || s == "bad_alloc" || s == "std:mp::OverflowError";
 }
 
 struct Verdict {
